@@ -58,11 +58,12 @@ type Prog struct {
 	Flush           []bool    `json:"flush,omitempty"`
 	Trailers        []wire.KV `json:"trailers,omitempty"`
 	Close           bool      `json:"close,omitempty"`
-	ResetFirst      bool      `json:"response_reset_first,omitempty"` // the handler starts with ctx.Response.Reset() (what AbortWithMsg / NotFound do)
-	DelHeader       string    `json:"del_header,omitempty"`           // the handler ends with Response.Header.Del(<framing header>), as a proxy stripping hop-by-hop fields does
-	EmptyWrites     bool      `json:"empty_writes,omitempty"`         // ctx.Write / chunked writer: a zero-length Write before every real one (an io.Writer accepts those)
+	ResetFirst      bool      `json:"response_reset_first,omitempty"`      // the handler starts with ctx.Response.Reset() (what AbortWithMsg / NotFound do)
+	DelHeader       string    `json:"del_header,omitempty"`                // the handler ends with Response.Header.Del(<framing header>), as a proxy stripping hop-by-hop fields does
+	EmptyWrites     bool      `json:"empty_writes,omitempty"`              // ctx.Write / chunked writer: a zero-length Write before every real one (an io.Writer accepts those)
 	SetCLHeader     bool      `json:"set_content_length_header,omitempty"` // after SetBodyStream(r, -1) the handler sets "Content-Length: <true length>" through the header API (a proxy copying the upstream headers)
-	PreStatus       int       `json:"pre_status,omitempty"`           // a status the handler sets first and replaces after the body was set (0 = none)
+	AbortAfter      bool      `json:"abort_after_writes,omitempty"`        // chunked writer: after the writes the handler runs into an error and calls ctx.AbortWithMsg (the header block has left by then)
+	PreStatus       int       `json:"pre_status,omitempty"`                // a status the handler sets first and replaces after the body was set (0 = none)
 	Salt            byte      `json:"salt"`
 	Flavor          int       `json:"flavor"`
 	body            []byte
@@ -194,6 +195,9 @@ func handler(c context.Context, ctx *app.RequestContext) {
 			if len(p.Flush) > 0 && p.Flush[k%len(p.Flush)] {
 				ctx.Flush() //nolint:errcheck
 			}
+		}
+		if p.AbortAfter {
+			ctx.AbortWithMsg("the handler failed after it had started to stream", 500)
 		}
 	}
 	if p.SetCLHeader && (p.Mode == mStreamUnknown || p.Mode == mStreamLimited) {
@@ -425,6 +429,7 @@ func genCase(t *rapid.T) *Case {
 		}
 		p.ResetFirst = rapid.IntRange(0, 3).Draw(t, "responseResetFirst") == 0
 		p.EmptyWrites = (p.Mode == mChunkedWriter || p.Mode == mWrite) && rapid.IntRange(0, 2).Draw(t, "emptyWrites") == 0
+		p.AbortAfter = p.Mode == mChunkedWriter && p.Size > 0 && !p.StatusAfterBody && rapid.IntRange(0, 5).Draw(t, "abortAfterWrites") == 0
 		p.SetCLHeader = (p.Mode == mStreamUnknown || p.Mode == mStreamLimited) && len(p.Trailers) == 0 && rapid.IntRange(0, 2).Draw(t, "setContentLengthHeader") == 0
 		if p.Mode != mChunkedWriter && rapid.IntRange(0, 5).Draw(t, "preStatus") == 0 {
 			p.PreStatus = rapid.SampledFrom([]int{204, 304, 200, 404}).Draw(t, "preStatusValue")
@@ -493,6 +498,10 @@ func TestC04Programs(t *testing.T) {
 		nt, cls := classify(c)
 		rec.Case(nt, ev.HashString(fmt.Sprintf("%+v", *c)), cls...)
 		if msg := Check(c); msg != "" {
+			if inD92(c) && ev.ReportKnown(prop, "D92") {
+				rec.Excluded("D92-response-replaced-after-the-chunked-writer-has-sent-the-header", 1)
+				return
+			}
 			if inD48(c) && ev.ReportKnown(prop, "D48") {
 				rec.Excluded("D48-bodiless-status-while-the-body-is-set-then-a-status-with-body", 1)
 				return
@@ -511,6 +520,19 @@ func TestC04Programs(t *testing.T) {
 func inD48(c *Case) bool {
 	for i, p := range c.Progs {
 		if (p.PreStatus == 204 || p.PreStatus == 304) && p.Mode != mNone && !wire.Bodiless(c.Reqs[i].Method, p.Status) {
+			return true
+		}
+	}
+	return false
+}
+
+// inD92: known finding D92. The handler streams through the chunked body writer and, after the header
+// block and some chunks have left, replaces the response (ctx.AbortWithMsg, NotFound: Response.Reset
+// drops the writer without ending its message); a second response is then written inside the chunked
+// body of the first. Cases of this shape are run; when one fails, it is reported as the known finding.
+func inD92(c *Case) bool {
+	for _, p := range c.Progs {
+		if p.AbortAfter {
 			return true
 		}
 	}
